@@ -200,4 +200,8 @@ SamplerEnds == <>(pcS = "done")
 NoWaitOnEmpty == []((pcP # "idle" /\ pcS = "done" /\ states = <<>>) => <>(pcP = "idle"))
 (* a produced sample is not lost: a waiting planner picks it up *)
 NoLostSample == []((pcP # "idle" /\ sampled < Len(states)) => <>(pcP = "idle"))
+(* the five in one formula (cheaper for TLC: one tableau) *)
+Live == /\ [](pcP # "idle" => <>(pcP = "idle" \/ LegitWait))
+        /\ []((pcP # "idle" /\ (ptc \/ (pcS = "done" /\ states = <<>>) \/ sampled < Len(states))) => <>(pcP = "idle"))
+        /\ <>(pcS = "done")
 ==============================================================================
